@@ -153,12 +153,36 @@ def run_unit(uname, ucfg, tier, repo, verif, build, log):
     # harness crate fails with "cannot find function `f`", copy `fn f` from the source files this unit already extracts from
     # (plain text, byte for byte) and rebuild -- at most three rounds.
     rounds = 0
-    while rounds < 3 and ('error[E0425]' in out or 'error[E0433]' in out):
+    while rounds < 3 and ('error[E0425]' in out or 'error[E0433]' in out or 'cannot find macro' in out):
         missing = sorted(set(re.findall(r'cannot find function `(\w+)` in this scope', out)))
         missing_types = sorted(set(re.findall(r'(?:cannot find type|use of undeclared type) `(\w+)`', out)))
-        if not missing and not missing_types:
+        missing_macros = sorted(set(re.findall(r'cannot find macro `(\w+)` in this scope', out)))
+        if not missing and not missing_types and not missing_macros:
             break
         added = []
+        # a missing private helper MACRO: copy its macro_rules! definition to the FRONT of the generated file (textual scoping)
+        srcs_m = sorted({it['source'] for it in items if it.get('source', '').endswith('.rs')})
+        gen_m = [os.path.join(r_, f_) for r_, _, fs_ in os.walk(os.path.join(dst, 'src')) for f_ in fs_ if f_ == 'extracted.rs']
+        for mname in (missing_macros if gen_m else []):
+            for rel in srcs_m:
+                try:
+                    ex2 = extract.Extracted()
+                    text = extract.extract_macro(repo, f'{rel} :: macro {mname}', ex2)
+                except (extract.ExtractError, extract.ScanError):
+                    continue
+                cur = open(gen_m[0]).read()
+                # after the leading inner attributes / comments
+                k = 0
+                for line in cur.splitlines(keepends=True):
+                    if line.startswith('//') or line.startswith('#!') or not line.strip():
+                        k += len(line)
+                    else:
+                        break
+                open(gen_m[0], 'w').write(cur[:k] + '// helper macro pulled in by the dependency closure (used by extracted text)\n' + text + '\n' + cur[k:])
+                items += ex2.items
+                rewrites.append(f'dependency closure: copied private helper `macro_rules! {mname}` from {rel}')
+                added.append(mname)
+                break
         # a missing private helper TYPE (unit struct / enum used as a namespace): copy its definition and its inherent impl blocks
         srcs_t = sorted({it['source'] for it in items if it.get('source', '').endswith('.rs')})
         gen_t = [os.path.join(r_, f_) for r_, _, fs_ in os.walk(os.path.join(dst, 'src')) for f_ in fs_ if f_ == 'extracted.rs']
